@@ -233,3 +233,31 @@ Proof.
     { rewrite gs_step by exact Hok2. cbn [fst]. rewrite Hcl2. reflexivity. }
     rewrite HZ. reflexivity.
 Qed.
+
+(* ---- a second upload for the version that already holds the snapshot is declined: the bytes of the upload that
+        created the snapshot stay (whatever the base of the chain, whatever the new bytes) ---- *)
+Lemma as_same_version_declined x v : snap_last x = Some v -> as_accepts x v = false.
+Proof.
+  intros H. unfold as_accepts. rewrite H. cbn [oid_eqb]. rewrite N.eqb_refl. reflexivity.
+Qed.
+
+Theorem reupload_keeps_snapshot k cfg h c v d d2 E : oracle_ok h ->
+  responses k cfg (h ++ [(OGetSnapshot c, noenv)]) = responses k cfg h ++ [RSnap v d] ->
+  responses k cfg (h ++ [(OAddSnapshot c v d2, E); (OGetSnapshot c, noenv)]) = responses k cfg h ++ [RSnapAck; RSnap v d].
+Proof.
+  intros Hor.
+  assert (Hor1 : oracle_ok (h ++ [(OGetSnapshot c, noenv)])) by (apply oracle_ok_snoc_noav; auto).
+  assert (Hor2 : oracle_ok (h ++ [(OAddSnapshot c v d2, E); (OGetSnapshot c, noenv)])).
+  { apply oracle_ok_from_app. split; [exact Hor|]. apply oracle_ok_no_av. reflexivity. }
+  rewrite (last_step k cfg h _ noenv Hor1), (responses_agree k cfg _ Hor2), (responses_agree k cfg h Hor), last_two_steps_a.
+  intros Hrs. apply app_inv_head in Hrs. injection Hrs as Hrs.
+  pose proof (reachable_inv cfg h Hor) as HI. unfold state_after. set (a := snd (arun cfg a_empty h)) in *.
+  destruct HI as (Hok & _).
+  rewrite gs_step in Hrs by exact Hok. cbn [fst] in Hrs.
+  rewrite as_step by exact Hok.
+  destruct (a_cl a c) as [x|] eqn:Hc; [|discriminate].
+  destruct (a_snap x) as [[m d0]|] eqn:Hs; [|discriminate]. injection Hrs as Hv Hd.
+  assert (Hl : snap_last x = Some v) by (unfold snap_last; rewrite Hs; cbn; rewrite Hv; reflexivity).
+  rewrite (as_same_version_declined x v Hl). cbn [fst snd].
+  rewrite gs_step by exact Hok. cbn [fst]. rewrite Hc, Hs, Hv, Hd. reflexivity.
+Qed.
